@@ -164,6 +164,8 @@ class UAIReader(object):
         """
         domain = {}
         var_domain = self.grammar.parseString(self.network)["domain_variables"]
+        if isinstance(var_domain, str):
+            var_domain = [var_domain]
         for var in range(0, len(var_domain)):
             domain["var_" + str(var)] = var_domain[var]
         return domain
@@ -233,6 +235,8 @@ class UAIReader(object):
                 values = self.grammar.parseString(self.network)[
                     "fun_values_" + str(function)
                 ]
+                if isinstance(values, str):
+                    values = [values]
                 tables.append((child_var, list(values)))
                 # The scope lists the parents in reverse order of the table's axes
                 # followed by the child (see UAIWriter.get_functions).
@@ -244,6 +248,8 @@ class UAIReader(object):
                 values = self.grammar.parseString(self.network)[
                     "fun_values_" + str(function)
                 ]
+                if isinstance(values, str):
+                    values = [values]
                 tables.append((function_variables, list(values)))
         return tables
 
@@ -292,6 +298,8 @@ class UAIReader(object):
 
         elif self.network_type == "MARKOV":
             model = MarkovNetwork(self.edges)
+            # Variables that occur in unary factors only have no edge.
+            model.add_nodes_from([var for var in self.variables if var not in model])
 
             factors = []
             for table in self.tables:
